@@ -117,6 +117,26 @@ theorem sections_inside_tag (T : Bytes) (v : View) (hT : 20 + v.n ≤ T.length) 
     exact ⟨this.1, fun s hs => ⟨(this.2.1 s hs).1, by have := (this.2.1 s hs).2.1; omega⟩⟩
   · rw [if_neg c] at h; cases h
 
+/-- names resolve through the string-table entry the tag designates: once `sections()` accepted a non-empty tag, reading
+    the `addr` field of the `shndx`-th section header stays inside the tag (never a fault) -/
+theorem name_reads_inside_tag (T : Bytes) (v : View) (hT : 20 + v.n ≤ T.length) (num es : Nat)
+    (h : elfOpen T v = .ok (num, es)) (hes : es = 40 ∨ es = 64) (hn : num ≠ 0) :
+    ∃ a, elfStrTabAddr T es (le32 T 16) = .ok a := by
+  rw [open_iff T v (by omega)] at h
+  by_cases c : le32 T 8 * le32 T 12 ≤ v.n ∧ (le32 T 8 = 0 ∨ (le32 T 16 + 1) * le32 T 12 ≤ v.n)
+  · rw [if_pos c] at h
+    injection h with h; injection h with ha hb
+    have hsh : (le32 T 16 + 1) * es ≤ v.n := by
+      rcases c.2 with c0 | c1
+      · exact absurd (ha ▸ c0) hn
+      · rw [← hb]; exact c1
+    have hsplit : (le32 T 16 + 1) * es = le32 T 16 * es + es := by rw [Nat.add_mul, Nat.one_mul]
+    unfold elfStrTabAddr rd32 rd64
+    rcases hes with e | e <;> subst e
+    · rw [if_pos rfl, if_pos (by omega)]; exact ⟨_, rfl⟩
+    · rw [if_neg (by decide), if_pos rfl, if_pos (by omega)]; exact ⟨_, rfl⟩
+  · rw [if_neg c] at h; cases h
+
 /-! Non-vacuity -/
 example : elfOpen ([9,0,0,0, 60,0,0,0, 1,0,0,0, 40,0,0,0, 0,0,0,0] ++ List.replicate 44 1) ⟨0, 60, 64, 40⟩ = .ok (1, 40) := by decide
 example : elfOpen ([9,0,0,0, 60,0,0,0, 5,0,0,0, 40,0,0,0, 0,0,0,0] ++ List.replicate 44 1) ⟨0, 60, 64, 40⟩ = .panic := by decide
